@@ -7,7 +7,7 @@
 From Coq Require Import String.
 From Coq Require Import List NArith ZArith Bool.
 From SK Require Import lib.LGraph lib.C01_GraphLemmas model.C01_Model model.C02_Model model.C01_Opts model.C01_String model.C01_Renum model.C01_Attrs model.C01_CleanWc model.C01_Rsmi model.C01_Nbrs model.C01_Rewrite model.C01_Conv model.C01_G2M model.C01_DecRaw model.C01_HBal
-  proof.C01_Proof proof.C01_OptsProof proof.C01_StringProof proof.C01_StringHyd proof.C01_StringPipe proof.C01_StringEH proof.C01_StringRenum proof.C01_StringHydExt proof.C01_RenumCentre proof.C01_RenumWrite proof.C01_StringEHwf proof.C01_AttrsProof proof.C01_StringPipeH proof.C01_CleanWcProof proof.C01_RsmiProof proof.C01_NbrsProof proof.C01_RewriteProof proof.C01_ConvProof proof.C01_G2MProof proof.C01_WriteExt proof.C01_RewriteCheck proof.C01_DecRawProof proof.C01_HBalProof proof.C01_HBalString.
+  proof.C01_Proof proof.C01_OptsProof proof.C01_StringProof proof.C01_StringHyd proof.C01_StringPipe proof.C01_StringEH proof.C01_StringRenum proof.C01_StringHydExt proof.C01_RenumCentre proof.C01_RenumWrite proof.C01_StringEHwf proof.C01_AttrsProof proof.C01_StringPipeH proof.C01_CleanWcProof proof.C01_RsmiProof proof.C01_NbrsProof proof.C01_RewriteProof proof.C01_ConvProof proof.C01_G2MProof proof.C01_WriteExt proof.C01_RewriteCheck proof.C01_DecRawProof proof.C01_HBalProof proof.C01_HBalString proof.C01_HBalEH.
 Import ListNotations.
 Local Open Scope Z_scope.
 
@@ -726,3 +726,16 @@ Theorem C01_string_hydrogen_balance : forall (rd_read : bool -> String.string ->
     h_total (graph_of mr') = h_total G /\ h_total (graph_of mp') = h_total H.
 Proof. exact string_hydrogen_balance. Qed.
 Print Assumptions C01_string_hydrogen_balance.
+
+(** 46. h_to_explicit on an ITS (rsmi_to_its(explicit_hydrogen=True), as repaired by /repo 61e730e) conserves the number of
+        hydrogens on BOTH sides: the decomposition of the explicit-hydrogen ITS stands, side by side, for as many hydrogens
+        (hydrogen atoms + hcounts) as the decomposition of the ITS it was made from - provided no atom that is a hydrogen on
+        that side has hydrogens of its own to expand ([h_safe]; always so for RDKit readings).  The first defect (before
+        61e730e the product half kept its hcount) was a violation of exactly this law on the product side. *)
+Theorem C01_h_to_explicit_balance : forall I : its, wf I ->
+  (h_safe i_G (gnodes I) ->
+     h_total (fst (its_decompose (fst (h_to_explicit_its I)))) = h_total (fst (its_decompose I))) /\
+  (h_safe i_H (gnodes I) ->
+     h_total (snd (its_decompose (fst (h_to_explicit_its I)))) = h_total (snd (its_decompose I))).
+Proof. exact h_to_explicit_balance. Qed.
+Print Assumptions C01_h_to_explicit_balance.
